@@ -93,6 +93,18 @@ def archive_of(term):
     return None
 
 
+def _vec_elem(facts, adt, field):
+    """element ADT of a Vec-typed field of a crate-local struct"""
+    a = facts.adts.get(adt)
+    crate = adt.split('::')[0]
+    for fd in a['variants'][0]['fields']:
+        if fd['n'] == field:
+            ty = facts.types.get((crate, fd['ty']), {})
+            if ty.get('args'):
+                return facts.types.get((crate, ty['args'][0]), {}).get('adt')
+    return None
+
+
 def frame_of(b, bi):
     """outermost inlined frame containing block bi (None: the function's own blocks)"""
     best = None
@@ -233,6 +245,49 @@ def run(facts, cg):
             instances.append({'rule': 'R-WIRE(chunk_stream-filter)', 'function': b.q, 'filters_by_argument': ok})
             if not ok:
                 finding('R-WIRE', b.q, 'no-filter', 'chunk_stream does not filter the descriptors by the index it is given')
+
+    # ---------------------------------------------------------------- R-FETCHLIST: what is requested is the unique descriptor table,
+    # filtered, in table order - and the n-th returned buffer is paired with the n-th descriptor of that same list
+    REORDER = ('sort', 'sort_by', 'sort_by_key', 'sort_unstable', 'sort_unstable_by', 'sort_unstable_by_key', 'sort_by_cached_key', 'dedup',
+               'dedup_by', 'dedup_by_key', 'reverse', 'retain', 'retain_mut', 'swap', 'swap_remove', 'rotate_left', 'rotate_right', 'drain',
+               'truncate', 'remove', 'insert', 'split_off', 'rev')
+    roles = facts.fields_by_role('bitar::archive::Archive')
+    vecs = roles.get('alloc::vec::Vec') or []
+    n_fl = 0
+    for b in facts.bodies.values():
+        if b.q != 'bitar::archive::Archive::chunk_stream':
+            continue
+        for bi, t in b.calls():
+            if 'q' not in t['callee'] or t['callee']['q'] != 'bitar::archive_reader::ArchiveReader::read_chunks':
+                continue
+            n_fl += 1
+            term = simplify(T.resolve_env(simplify(T.of_operand(b, t['args'][1]))))
+            fields = {n_[2] for n_ in walk(term) if n_[0] == 'field' and isinstance(n_[2], str)}
+            # the table of unique descriptors = the Vec field of Archive whose element type is ChunkDescriptor
+            table = [f_ for f_ in vecs if _vec_elem(facts, 'bitar::archive::Archive', f_) == ARCH_DESC]
+            others = [f_ for f_ in vecs if f_ not in table]
+            inst = {'rule': 'R-FETCHLIST', 'function': b.q, 'at': t['loc'], 'reads_fields': sorted(fields & set(vecs)), 'descriptor_table': table}
+            instances.append(inst)
+            if not table or not (fields & set(table)):
+                finding('R-FETCHLIST', b.q, 'source', 'the list of ranges to fetch is not built from the table of unique chunk descriptors (%s)' % sorted(fields))
+            if fields & set(others):
+                finding('R-FETCHLIST', b.q, 'source-order', 'the list of ranges to fetch is built by walking %s: a chunk that occurs several times in the source is requested several times' % sorted(fields & set(others)))
+            bad = sorted({n_[1].split('::')[-1] for n_ in walk(term) if n_[0] == 'call' and n_[1].split('::')[-1] in REORDER})
+            if bad:
+                finding('R-FETCHLIST', b.q, 'reordered:' + bad[0], 'the list of ranges to fetch is re-ordered / thinned (%s) after it was derived from the descriptors it is paired with by position' % bad)
+        # in-place re-ordering of either list
+        for bi, t in b.calls():
+            if 'q' not in t['callee'] or not t['args'] or t['args'][0]['k'] not in ('copy', 'move'):
+                continue
+            name = callee_q(t).split('::')[-1]
+            if name not in REORDER:
+                continue
+            ty = b.lty(t['args'][0]['pl']['l'])
+            sty = ty.get('s', '')
+            if ty.get('k') in ('ref', 'rawptr') and ('ChunkOffset' in sty or 'ChunkDescriptor' in sty):
+                finding('R-FETCHLIST', b.q, 'reordered:' + name, '%s at %s re-orders / thins a list that is paired by position with the buffers the reader returns' % (name, t['loc']))
+    if n_fl < 1:
+        finding('R-FETCHLIST', '-', 'floor', 'the read_chunks call of Archive::chunk_stream was not found (cannot decide)')
 
     # ---------------------------------------------------------------- R-HASHEQ
     from .r_steps import hash_compare_sites, _pointee_adt, HASHSUM
